@@ -271,7 +271,7 @@ def case_cli(ctx, family, k, n, m, plant, seed):
     ctx.judged(("cli", family, k, n, m, plant, seed), nontrivial=m > 0, sample={"argv": argv})
 
 
-def case_max(ctx, family, k, n, rseed):
+def case_max(ctx, family, k, n, rseed, slim=False):
     """The exact maximum with zero and with one planted (total) assignment, for every k at a given n:
     C(n,k)*2^k resp. C(n,k)*(2^k-1) clauses, 2*C(n,k) resp. C(n,k) parities.  m = max accepted, max+1 refused."""
     import math
@@ -279,13 +279,13 @@ def case_max(ctx, family, k, n, rseed):
     import cnfgen.families.randomkxor as rx
     r = ctx.rng("c13max", family, k, n, rseed)
     gen = rf.RandomKCNF if family == "kcnf" else rx.RandomKXOR
-    for nplanted in (0, 1):
+    for nplanted in (0, 1) if not slim else (0,):
         planted = planted_sets(n, r, nplanted)
         if family == "kcnf":
             mx = math.comb(n, k) * (2 ** k - nplanted)
         else:
             mx = math.comb(n, k) * (2 - nplanted)
-        for m, feasible in ((mx, True), (mx + 1, False)):
+        for m, feasible in ((mx, True), (mx + 1, False)) if not slim else ((mx, True),):
             seed = r.randint(0, 10 ** 6)
             label = "%s(k=%d,n=%d,m=%d,planted=%r,seed=%d) [maximum %d]" % (gen.__name__, k, n, m, planted, seed, mx)
             st, F = ctx.call(gen, k, n, m, seed=seed, planted_assignments=[list(a) for a in planted])
@@ -492,6 +492,9 @@ def workload(tier, seed):
         yield "many_planted", {"k": 3, "n": 120, "m": 30, "t": 28, "rseed": seed}
     for (k, n, m, t) in ((3, 30, 20, 25), (3, 60, 30, 25), (2, 300, 20, 10), (4, 40, 20, 38)):
         yield "many_planted", {"k": k, "n": n, "m": m, "t": t, "rseed": seed}
+    # the exact maximum on universes just above 2^18 clauses (10-30 s each: one request only)
+    for (k, n) in ((2, 363),) if tier == "quick" else ((2, 363), (3, 60), (5, 19), (2, 520)):
+        yield "max", {"family": "kcnf", "k": k, "n": n, "rseed": seed, "slim": True}
     yield "astronomical", {"rseed": seed}
     for family in ("kcnf", "kxor"):
         for exps in ([31, 32], [53, 63], [64, 65]) if tier == "quick" else ([15, 16], [24, 31], [32, 33], [52, 53], [62, 63], [64, 65], [127, 128]):
